@@ -74,8 +74,8 @@ func NewSpecDB() *SpecDB {
 
 var clauseKW = map[string]bool{"requires": true, "ensures": true, "modifies": true, "invariant": true,
 	"decreases": true, "check": true, "effects": true, "thread": true, "acquires": true, "releases": true,
-	"assumes": true, "opaque": true, "panics": true, "funcspec": true, "inline": true, "havoc": true, "trusted": true, "asserts": true}
-var blockKW = map[string]bool{"pure": true, "func": true, "loop": true, "assume": true, "lemma": true,
+	"assumes": true, "opaque": true, "panics": true, "funcspec": true, "inline": true, "havoc": true, "trusted": true, "asserts": true, "unroll": true}
+var blockKW = map[string]bool{"abstract": true, "pure": true, "func": true, "loop": true, "assume": true, "lemma": true,
 	"guarded": true, "ghost": true, "global": true}
 
 var specLineRe = regexp.MustCompile(`^\s*//\s?@(.*)$`)
@@ -181,6 +181,30 @@ func (db *SpecDB) parseHeader(b *Block, h string) error {
 		}
 		b.Name = canonFuncKey(name[:k], b.Pkg) + name[k:]
 		db.Loops[b.Name] = b
+	case "abstract":
+		// abstract name(p T, ...) R : uninterpreted function
+		m := abstractHeaderRe.FindStringSubmatch(h)
+		if m == nil {
+			return fmt.Errorf("bad abstract header: %s", h)
+		}
+		b.Name = m[1]
+		for _, p := range splitTop(m[2], ',') {
+			p = strings.TrimSpace(p)
+			if p == "" {
+				continue
+			}
+			k := strings.IndexAny(p, " \t")
+			if k < 0 {
+				return fmt.Errorf("abstract param needs a type: %s", p)
+			}
+			b.PureParams = append(b.PureParams, PureParam{Name: p[:k], Type: strings.TrimSpace(p[k:])})
+		}
+		b.PureRet = strings.TrimSpace(m[3])
+		key := b.Name
+		if b.Pkg != "" {
+			key = b.Pkg + "." + b.Name
+		}
+		db.Pures[key] = b
 	case "pure", "lemma":
 		// finished later (header may continue on following lines)
 	case "guarded":
@@ -247,6 +271,8 @@ func headerParams(name string) []string {
 	}
 	return out
 }
+
+var abstractHeaderRe = regexp.MustCompile(`^abstract\s+([A-Za-z_][A-Za-z0-9_]*)\s*\(([^)]*)\)\s*(.*)$`)
 
 var pureHeaderRe = regexp.MustCompile(`^pure\s+([A-Za-z_][A-Za-z0-9_]*)\s*\(([^)]*)\)\s*([^=]*?)\s*=\s*(.*)$`)
 
